@@ -41,6 +41,7 @@ type S struct {
 	T    int64
 	N    int
 	Ad   SA
+	Sk   int
 }
 
 func (s *S) Gval() int { return s.g }
@@ -52,6 +53,7 @@ type D struct {
 	T    int
 	N    int
 	Ad   DA
+	Sk   int
 }
 
 func I2I(i int) int           { return i }
@@ -68,6 +70,12 @@ var c09Inherit = [][3]string{
 	{"", ":getter", ":getter:off"},
 	{"", ":stringer", ":stringer:off"},
 	{"", ":typecast", ":typecast:off"},
+}
+
+// c09MethodNotes: the method's settings BELOW a regexp :skip whose answer depends on the case rule in force for the method
+// (round 5, C09-m9: `/^sk$/` meets the member Sk only when the case rule is off - wherever that rule was set)
+func c09MethodNotes(v []int) []string {
+	return append([]string{":skip /^sk$/"}, c09Notes(v)...)
 }
 
 func c09Notes(v []int) []string {
@@ -378,7 +386,7 @@ func init() {
 					v[i] = 1
 				}
 			}
-			f := c09File{id: fmt.Sprintf("refa_%d", code), src: c09Setup([]string{c09Intf("Convergen", nil, []string{c09Method("Mref", c09Notes(v), "(*S) *D")})})}
+			f := c09File{id: fmt.Sprintf("refa_%d", code), src: c09Setup([]string{c09Intf("Convergen", nil, []string{c09Method("Mref", c09MethodNotes(v), "(*S) *D")})})}
 			exit, out, se, crashed := e.c09Run(base, f)
 			e.Rep.AddTransitions(1)
 			if exit != 0 || crashed {
@@ -447,7 +455,7 @@ func init() {
 			intfV := g[0][:6]
 			var methods []string
 			for mi, s := range g {
-				methods = append(methods, c09Method(fmt.Sprintf("M%04d", mi), c09Notes(s[6:]), "(*S) *D"))
+				methods = append(methods, c09Method(fmt.Sprintf("M%04d", mi), c09MethodNotes(s[6:]), "(*S) *D"))
 			}
 			src := c09Setup([]string{c09Intf("Convergen", c09Notes(intfV), methods)})
 			id := fmt.Sprintf("inh_%d", gi)
@@ -496,7 +504,7 @@ func init() {
 					if onlyIntf {
 						level = "interface-only"
 					}
-					single := c09Setup([]string{c09Intf("Convergen", c09Notes(s[:6]), []string{c09Method("M", c09Notes(s[6:]), "(*S) *D")})})
+					single := c09Setup([]string{c09Intf("Convergen", c09Notes(s[:6]), []string{c09Method("M", c09MethodNotes(s[6:]), "(*S) *D")})})
 					fail("inheritance|"+strings.Join(wrong, "+")+"|"+level, fmt.Sprintf("%s_m%d", id, mi),
 						fmt.Sprintf("interface-level %v, method-level %v: effective %s; generated function differs from the one for the effective settings written at method level", c09Notes(s[:6]), c09Notes(s[6:]), effKey(eff)),
 						map[string]string{"setup.go": single}, want, got)
